@@ -36,6 +36,9 @@ pub fn judge_case(c: &Case) -> Obs {
             return obs;
         }
     };
+    if let Some(l) = proggen::fit_label(&c.spec) {
+        obs.label(l);
+    }
     // with end of input instead of `quit`, the debugger legitimately reads the rest of stdin as
     // commands (shared stream): such sessions get no program input
     let input: Vec<u8> = if c.explicit_quit { c.input.clone() } else { vec![] };
@@ -149,6 +152,9 @@ pub fn judge_cli(c: &Case) -> Obs {
             return obs;
         }
     };
+    if let Some(l) = proggen::fit_label(&c.spec) {
+        obs.label(l);
+    }
     let input: Vec<u8> = if c.explicit_quit { c.input.clone() } else { vec![] };
     let rr = refvm::run(Vm::load(p.orig, &p.img.words, p.built.stack), &input, BUDGET, Some(0xFFFD));
     if matches!(rr.stop, RunStop::OutOfFuel | RunStop::Unspecified(_)) || rr.printed_escape || input.iter().take(rr.consumed).any(|b| *b >= 0x80) {
@@ -192,7 +198,7 @@ pub fn judge_cli(c: &Case) -> Obs {
 }
 
 fn cases() -> impl Strategy<Value = Case> {
-    let spec = prop_oneof![5 => proggen::prog_spec(24).boxed(), 1 => proggen::raw_image_spec(super::c03::image_words()).boxed()];
+    let spec = crate::pick![5 => proggen::prog_spec(24).boxed(), 1 => proggen::raw_image_spec(super::c03::image_words()).boxed()];
     (spec, prop::collection::vec(raw_cmd(), 0..14), input_bytes(), any::<bool>()).prop_map(|(spec, cmds, input, explicit_quit)| Case { spec, cmds, input, explicit_quit })
 }
 
@@ -222,9 +228,22 @@ impl Prop for C09 {
     fn needs_cli(&self) -> bool {
         true
     }
-    fn replay(&self, _ctx: &Ctx, case: &Value) -> Obs {
+    fn fuzz_strategy(&self) -> Option<BoxedStrategy<Value>> {
+        Some(crate::fuzzmode::jv(cases()))
+    }
+    fn replay(&self, ctx: &Ctx, case: &Value) -> Obs {
         match serde_json::from_value::<Case>(case.clone()) {
-            Ok(c) => judge_case(&c),
+            Ok(c) => {
+                // in-process judge, then (outside the coverage-guided stage, profile "F") the pair of
+                // real processes, so that a failure found by either stream replays
+                let o = judge_case(&c);
+                if o.fail.is_some() || ctx.profile == "F" || std::env::var("VERIF_CLI_DEV").is_err() {
+                    o
+                } else {
+                    let t = judge_cli(&c);
+                    if t.fail.is_some() { t } else { o }
+                }
+            }
             Err(e) => Obs::fail("C09:bad-replay-file", format!("cannot parse case: {e}")),
         }
     }
